@@ -829,10 +829,11 @@ def sel_direct(case):
             return (f"C12:{name}:not-a-candidate", f"{desc} returned {out!r}, not one of {cands}")
         if case["candidates"] is None and not isinstance(out, (int, np.integer)):
             return (f"C12:{name}:not-a-candidate", f"{desc} returned index {out!r} of type {type(out).__name__}")
-        if (eps == INF or case["sens"] == 0) and name == "PermuteAndFlip" or ((eps == INF or case["sens"] == 0) and case.get("u") != 0.0):
+        if eps == INF or case["sens"] == 0:
             idx = cands.index(out)
             if not np.isclose(case["utility"][idx], max(case["utility"])):
-                return (f"C12:{name}:degenerate", f"{desc} returned {out!r} whose utility {case['utility'][idx]} is not the maximum")
+                return (f"C12:{name}:degenerate" + ("-u0" if case.get("u") == 0.0 else ""),
+                        f"{desc} returned {out!r} whose utility {case['utility'][idx]} is not the maximum")
         return None
     if name in ("ExponentialCategorical", "ExponentialHierarchical"):
         def call():
@@ -848,7 +849,8 @@ def sel_direct(case):
         if o not in dom or not isinstance(o, str):
             return (f"C12:{name}:not-in-domain", f"{desc} returned {o!r}, not one of {dom}")
         if eps == INF and o != case["value"]:
-            return (f"C12:{name}:degenerate", f"{desc} with epsilon=inf returned {o!r} instead of the input")
+            return ("C12:ExponentialCategorical:degenerate" + ("-u0" if case.get("u") == 0.0 else ""),
+                    f"{desc} with epsilon=inf returned {o!r} instead of the input")
         return None
     if name == "Binary":
         def call():
